@@ -820,6 +820,11 @@ def run_doc(doc: dict, cfg: dict):
         tail = b'' if cfg['enc'] == 'bin' else data[-400:]
         fails.append(('graph_mismatch', exc.what, f'{exc.detail}' + (f'\n exported tail: {tail!r}' if tail else '')))
         status = 'mismatch'
+    except RunawayCode:
+        raise
+    except Exception as exc:  # noqa: BLE001 - walking the parsed graph through its public mapping API raised
+        fails.append(('graph_mismatch', 'access_raised', f'reading the parsed graph raised {type(exc).__name__}: {str(exc)[:200]}'))
+        status = 'mismatch'
     return status, fails
 
 
@@ -1137,7 +1142,8 @@ ALLCFG = ([{'enc': 'bin', 'ver': v, 'uni': u} for v in (1, 2, 3, 4, 5) for u in 
 GRAPHCFG = [c for c in ALLCFG if c['uni'] == 'ascii']
 GRAPHCFG_TOP = [c for c in GRAPHCFG if c.get('ver') in (1, 5) or (c['enc'] == 'kv2' and c['flat'] == c['cull'])]
 
-NAMES = ['a', 'A', 'id', 'ID', 'we"ird', 'back\\slash', 'bs\\n', 'sp ace', '\u00e9', '', "it's", 'l1\nl2', 'name', 'Name', 'L' * 256, 'M' * 300]
+NAMES = ['a', 'A', 'id', 'ID', 'we"ird', 'back\\slash', 'bs\\n', 'sp ace', '\u00e9', '', "it's", 'l1\nl2', 'name', 'Name', 'L' * 256, 'M' * 300,
+         'Stra\u00dfe', '\u039f\u0394\u039f\u03a3', '\ufb01le']     # lower() and casefold() disagree on these
 NAMEKEYS = ['Name', 'NAME']
 REP_GRAPHS = [
     [[['s', 1]], [['s', 2]], []],                       # chain
